@@ -104,6 +104,7 @@ Definition ser_static_ok (s : struct) (allfs : list field) (f : field) : bool :=
   && match bound_field allfs f with
      | Some g => match f_type f with
                  | FInt _ => match f_array g with Some _ => true | None => is_sizeof f end
+                             && match f_type g with FArray ga => array_static_ok ga | _ => true end   (* the bound member's size is taken *)
                  | _ => false
                  end
      | None => match f_type f with
@@ -352,6 +353,17 @@ Definition member_ok (s : struct) (nc : list field) (f : field) : bool :=
        end
   end.
 
+(* every member against the branches of the interpreter: the members of the struct itself (own and inherited) and, for a child, the members
+   of its parent as the parent's _serialize / _deserialize sees them (with the CHILD's member list for bindings and conditions) *)
+Definition layout_serialize_ok (s : struct) : bool :=
+  let nc := struct_fields_nc s in
+  forallb (ser_static_ok s nc) nc
+  && match base_struct tm s with Some b => forallb (ser_static_ok b nc) (struct_fields_nc b) | None => true end.
+Definition layout_deserialize_ok (s : struct) : bool :=
+  let nc := struct_fields_nc s in
+  forallb (des_static_ok nc) nc
+  && match base_struct tm s with Some b => forallb (des_static_ok nc) (struct_fields_nc b) | None => true end.
+
 (* discriminators: named members of the parent; every child initialises each from a constant of matching type *)
 Definition discriminator_names (b : struct) : option (list string) :=
   match find_attr (s_attrs b) "discriminator" with
@@ -424,12 +436,8 @@ Definition struct_checks (s : struct) : list (string * bool) :=
             end
        end);
     ("comparer", comparer_static_ok s);
-    ("layout-serialize",
-       forallb (ser_static_ok s nc) (own_fields tm s)
-       && match base_struct tm s with Some b => forallb (ser_static_ok b nc) (struct_fields_nc b) | None => true end);
-    ("layout-deserialize",
-       forallb (des_static_ok nc) (own_fields tm s)
-       && match base_struct tm s with Some b => forallb (des_static_ok nc) (struct_fields_nc b) | None => true end) ].
+    ("layout-serialize", layout_serialize_ok s);
+    ("layout-deserialize", layout_deserialize_ok s) ].
 
 Definition decl_checks (d : decl) : list (string * bool) :=
   match d with
@@ -459,8 +467,8 @@ Fixpoint wf_report_go (tm : list decl) (earlier rest : list decl) : list string 
   match rest with
   | [] => []
   | d :: r =>
-    (if existsb (fun e => String.eqb (decl_name e) (decl_name d)) earlier then [decl_name d ++ ":duplicate-name"] else [])
-    ++ flat_map (fun c => if snd c then [] else [decl_name d ++ ":" ++ fst c]) (decl_checks tm earlier d)
+    (if existsb (fun e => String.eqb (decl_name e) (decl_name d)) earlier then [(decl_name d ++ ":duplicate-name")%string] else [])
+    ++ flat_map (fun c : string * bool => if snd c then [] else [(decl_name d ++ ":" ++ fst c)%string]) (decl_checks tm earlier d)
     ++ wf_report_go tm (earlier ++ [d]) r
   end.
 Definition wf_report (tm : list decl) : string := String.concat " " (wf_report_go tm [] tm).
